@@ -27,7 +27,25 @@ const (
 type vfile struct {
 	data  []byte
 	isDir bool
+	mode  fs.FileMode // 0 = regular; fs.ModeNamedPipe / fs.ModeCharDevice = not seekable
 }
+
+// pipeFile is what os.Open returns for a fifo or a character device: it HAS a Seek method (every *os.File
+// does) but seeking fails; reading works.
+type pipeFile struct {
+	r    *bytes.Reader
+	name string
+	mode fs.FileMode
+}
+
+func (p *pipeFile) Stat() (fs.FileInfo, error) {
+	return interp.FixedFileInfo{FName: p.name, FMode: p.mode}, nil
+}
+func (p *pipeFile) Read(b []byte) (int, error) { return p.r.Read(b) }
+func (p *pipeFile) Seek(int64, int) (int64, error) {
+	return 0, &fs.PathError{Op: "seek", Path: p.name, Err: errors.New("illegal seek")}
+}
+func (p *pipeFile) Close() error { return nil }
 
 type vfs map[string]vfile
 
@@ -48,6 +66,9 @@ func (v vfs) Open(name string) (fs.File, error) {
 	}
 	if f.isDir {
 		return dirFile{name}, nil
+	}
+	if f.mode != 0 {
+		return &pipeFile{r: bytes.NewReader(f.data), name: name, mode: f.mode}, nil
 	}
 	// like internal/script: a seekable reader, mode 0 (regular)
 	return interp.FileReader{
